@@ -66,7 +66,10 @@ def run(ctx):
     progs = ["find all any", "find all at least 1 (not 'b')", "find all 'zzz'", "replace all any with '<' value '\"'", "replace all in '\"', '\\\\' with 'x\\n'",
              "find all (any = x) maybe x", "find all at least 1 (any = c) named cs", "find all at least 1 ((any = c) maybe ('b' = d)) named outer 'b'",
              "find top 1 any", "replace all 'a' with nothingdefined", "replace all any with ''", "replace all 'a' with ''",
-             "replace all (maybe 'a') = x 'b' with x", "replace all in 'a', '\"' with '' ''", "find all line start at least 0 any fewest line end"]
+             "replace all (maybe 'a') = x 'b' with x", "replace all in 'a', '\"' with '' ''", "find all line start at least 0 any fewest line end",
+             # captures of whole words: variable values that are valid UTF-8 with characters of 1, 2, 3 and 4 bytes
+             "find all (at least 1 (not ' ')) = w", "find all (at least 2 any) = v maybe ' '", "replace all (at least 1 (not in ' ', 'a')) = w with w '|' w",
+             "find all at least 1 ((at least 1 (not ' ')) = w maybe ' ') named ws", "find all (at least 1 any) = all"]
     cases, meta = [], []
     for i in range(60 if quick else 800):
         p = rng.choice(progs)
